@@ -172,8 +172,9 @@ def case_tps(ctx, shape):
         roots = [nm for nm in names if nm.startswith("sq!") and St.sem.get(nm, ("",))[0] == "sqrt"
                  and not z3.is_rational_value(z3.simplify(St.sem[nm][1]))]
         if len(roots) != 1:
-            g1.append(z3.BoolVal(len(roots) == 0 and ns == 1))
+            # no single square-root cut-point to split at (other code shape): the semantic statement in one query
             g2 += eqs(e * e * ns, var_)
+            g2.append(z(e.re) >= 0)
             continue
         root = z3.Real(roots[0])
         g1.append(St.sem[roots[0]][1] == z(var_.re))
